@@ -130,14 +130,14 @@ structure Session where
   reset : Int
   paths : List String
   seq : Nat
-deriving Repr, BEq, DecidableEq
+deriving Repr, DecidableEq
 
 inductive Err
   | txDecode | insufficientCoins | invalidCoins | unauthorized | insufficientFee | unknownAddress
   | sessionExpired | sessionNotAllowed | sessionNotFound | sessionLimit | insufficientFunds
   | internal      -- a Go panic outside the VM (runTx's recover ⇒ `InternalError`)
   | vm            -- any error or panic raised inside a VM message (`StringError`)
-deriving Repr, BEq, DecidableEq
+deriving Repr, DecidableEq
 
 def Err.token : Err → String
   | .txDecode => "err:TxDecodeError" | .insufficientCoins => "err:InsufficientCoinsError"
@@ -179,7 +179,7 @@ inductive Acct
   | m (i : Nat)   -- master accounts (the only signers)
   | a (i : Nat)   -- plain recipients
   | k (i : Nat)   -- the address of session key i
-deriving Repr, BEq, DecidableEq
+deriving Repr, DecidableEq
 
 abbrev SessKey := Nat × Nat   -- (master, session key)
 
@@ -269,10 +269,10 @@ def bankSendUnrestricted (w : World) (src : Acct) (to : Option Acct) (amt : Coin
 /-! ## Messages -/
 
 inductive ExecFn | noop | fail | grow (n : Int)
-deriving Repr, BEq, DecidableEq
+deriving Repr, DecidableEq
 
 inductive RunFn | noop | fail | pay (to : Acct) (coins : Coins)
-deriving Repr, BEq, DecidableEq
+deriving Repr, DecidableEq
 
 inductive Msg
   | send (src : Nat) (to : Acct) (amt : Coins)
@@ -282,7 +282,7 @@ inductive Msg
   | create (src key : Nat) (expires period : Int) (limit : Coins) (paths : List String)
   | revoke (src key : Nat)
   | revokeall (src : Nat)
-deriving Repr, BEq, DecidableEq
+deriving Repr, DecidableEq
 
 structure Tx where
   auth : List (Nat × Nat)   -- master ↦ session key it signs through (absent = master key)
@@ -333,15 +333,16 @@ def Tx.decode (tx : Tx) : Option Tx := do
   let msgs ← tx.msgs.mapM Msg.decode
   pure { tx with fee := fee, msgs := msgs }
 
-/-- `Msg.ValidateBasic` on decoded messages (only the failing branches that decoding leaves open) -/
-def Msg.validateBasic : Msg → Except Err Unit
-  | .send _ _ amt => if amt.length == 0 then .error .insufficientCoins else .ok ()
+/-- `Msg.ValidateBasic` on decoded messages (only the failing branches that decoding leaves
+    open); `none` = valid -/
+def Msg.validateBasic : Msg → Option Err
+  | .send _ _ amt => if amt.length == 0 then some .insufficientCoins else none
   | .create _ _ e p _ ps =>
-    if e < 0 then .error .unauthorized
-    else if p < 0 then .error .unauthorized
-    else if (ps.length : Int) > maxAllowPathsPerSession then .error .unauthorized
-    else .ok ()
-  | _ => .ok ()
+    if e < 0 then some .unauthorized
+    else if p < 0 then some .unauthorized
+    else if (ps.length : Int) > maxAllowPathsPerSession then some .unauthorized
+    else none
+  | _ => none
 
 /-! ## Allow-paths (`gno.land/pkg/gnoland/allow_paths.go`, `app.go`) -/
 
@@ -350,7 +351,7 @@ structure Entry where
   route : String
   type : String
   path : String
-deriving Repr, BEq
+deriving Repr
 
 /-- `parseAllowPathsEntry` (`none` = error) -/
 def parseEntry (s : String) : Option Entry :=
@@ -476,20 +477,47 @@ def execMsgs (auth : List (Nat × Nat)) (w : World) : List Msg → Except Err Wo
 
 /-! ## Ante (`auth.NewAnteHandler` + `checkSessionRestrictions`) -/
 
-/-- phase 1 for one signer: the account exists; a session signature names a stored, unexpired session -/
-def resolveSigner (auth : List (Nat × Nat)) (w : World) (i : Nat) : Except Err Unit :=
-  if !w.exist (.m i) then .error .unknownAddress
+/-- phase 1 for one signer: the account exists; a session signature names a stored, unexpired
+    session.  `none` = resolved. -/
+def resolveSigner (auth : List (Nat × Nat)) (w : World) (i : Nat) : Option Err :=
+  if !w.exist (.m i) then some .unknownAddress
   else match auth.lookup i with
-    | none => .ok ()
+    | none => none
     | some k =>
       match lookupSess w.sess (i, k) with
-      | none => .error .unauthorized
-      | some s => if s.expiresAt > 0 && w.now ≥ s.expiresAt then .error .sessionExpired else .ok ()
+      | none => some .unauthorized
+      | some s => if s.expiresAt > 0 && w.now ≥ s.expiresAt then some .sessionExpired else none
 
 /-- phase 2a total: fee, then every message's `SpendForSigner(first signer)`; `none` = `Coins.Add` panic -/
-def precheckTotal (fee : Coin) (first : Nat) (msgs : List Msg) : Option Coins := do
-  let t ← if fee.2 == 0 then some [] else add [] [fee]
-  msgs.foldlM (fun acc m => add acc (m.spendFor first)) t
+def precheckTotal (fee : Coin) (first : Nat) : List Msg → Option Coins → Option Coins
+  | [], acc => acc
+  | m :: r, acc => precheckTotal fee first r (acc.bind fun t => add t (m.spendFor first))
+
+/-- phase 2a: only when the first signer signs through a session -/
+def precheck (w : World) (tx : Tx) (first : Nat) : Option Err :=
+  match tx.auth.lookup first with
+  | none => none
+  | some k =>
+    match lookupSess w.sess (first, k) with
+    | none => none
+    | some s =>
+      match precheckTotal tx.fee first tx.msgs (if tx.fee.2 == 0 then some [] else add [] [tx.fee]) with
+      | none => some .internal
+      | some total =>
+        match checkSessionSpend s total w.now with
+        | .error e => some e
+        | .ok () => none
+
+/-- phase 2b: the fee counts against the first signer's session (`DeductSessionSpend`), then
+    `DeductFees` takes it from the master (balance check, `SendCoinsUnrestricted`). -/
+def payFee (w : World) (tx : Tx) (first : Nat) : Except Err World :=
+  if tx.fee.2 == 0 then .ok w
+  else
+    match hookDeduct tx.auth w (.m first) [tx.fee] with
+    | .error e => .error e
+    | .ok w =>
+      if w.bal (.m first) tx.fee.1 < tx.fee.2 then .error .insufficientFunds
+      else bankSendUnrestricted w (.m first) none [tx.fee]
 
 /-- phase 3 for one signer: the signature verifies (harness contract); the sequence of the
     signing account moves on — for a session signer that is the session record. -/
@@ -500,45 +528,37 @@ def bumpSeq (auth : List (Nat × Nat)) (w : World) (i : Nat) : World :=
     | none => w
     | some s => { w with sess := setSess w.sess (i, k) { s with seq := s.seq + 1 } }
 
-def ante (w : World) (tx : Tx) : Except Err World := do
+/-- gno.land `checkSessionRestrictions` for one message -/
+def restrictionOK (auth : List (Nat × Nat)) (w : World) (m : Msg) : Bool :=
+  match auth.lookup m.signer with
+  | none => true
+  | some k =>
+    match lookupSess w.sess (m.signer, k) with
+    | none => true
+    | some s => msgAllowed s m
+
+def ante (w : World) (tx : Tx) : Except Err World :=
   let signers := signersOf tx.msgs
-  -- tx.ValidateBasic: a zero fee has lost its denom in the encoding
-  if !(validDenom tx.fee.1) then throw .insufficientFee
-  -- phase 1
-  signers.forM (resolveSigner tx.auth w)
   let first := signers.headD 0
-  let firstSess : Option (Nat × Session) :=
-    match tx.auth.lookup first with
-    | none => none
-    | some k => (lookupSess w.sess (first, k)).map fun s => (k, s)
-  -- phase 2a: pre-check of the first signer's declared outflow
-  match firstSess with
-  | none => pure ()
-  | some (_, s) =>
-    match precheckTotal tx.fee first tx.msgs with
-    | none => throw .internal
-    | some total => checkSessionSpend s total w.now
-  -- phase 2b: the fee counts against the first signer's session, then is paid by the master
-  let w ← if tx.fee.2 == 0 then pure w else do
-    let w ← match firstSess with
-      | none => pure w
-      | some (k, s) =>
-        match deductSessionSpend s [tx.fee] w.now with
-        | .error e => throw e
-        | .ok s' => pure { w with sess := setSess w.sess (first, k) s' }
-    if w.bal (.m first) tx.fee.1 < tx.fee.2 then throw .insufficientFunds
-    bankSendUnrestricted w (.m first) none [tx.fee]
-  -- phase 3
-  let w := signers.foldl (bumpSeq tx.auth) w
-  -- gno.land: checkSessionRestrictions
-  for m in tx.msgs do
-    match tx.auth.lookup m.signer with
-    | none => pure ()
-    | some k =>
-      match lookupSess w.sess (m.signer, k) with
-      | none => pure ()
-      | some s => if !msgAllowed s m then throw .sessionNotAllowed
-  pure w
+  -- tx.ValidateBasic: a zero fee has lost its denom in the encoding
+  if !(validDenom tx.fee.1) then .error .insufficientFee
+  else
+    -- phase 1
+    match signers.findSome? (resolveSigner tx.auth w) with
+    | some e => .error e
+    | none =>
+      -- phase 2a
+      match precheck w tx first with
+      | some e => .error e
+      | none =>
+        -- phase 2b
+        match payFee w tx first with
+        | .error e => .error e
+        | .ok w =>
+          -- phase 3
+          let w := signers.foldl (bumpSeq tx.auth) w
+          -- gno.land: checkSessionRestrictions
+          if tx.msgs.all (restrictionOK tx.auth w) then .ok w else .error .sessionNotAllowed
 
 /-! ## runTx -/
 
@@ -547,9 +567,9 @@ def runTx (w : World) (raw : Tx) : World × Except Err Unit :=
   match raw.decode with
   | none => (w, .error .txDecode)
   | some tx =>
-    match tx.msgs.forM Msg.validateBasic with
-    | .error e => (w, .error e)
-    | .ok () =>
+    match tx.msgs.findSome? Msg.validateBasic with
+    | some e => (w, .error e)
+    | none =>
       match ante w tx with
       | .error e => (w, .error e)                       -- ante abort: nothing is written
       | .ok wa =>
